@@ -75,6 +75,10 @@ def auto_rules(text, log):
         log.append({"rule": "R2-attr", "before": text[mt.start():close + 1], "after": ""})
         text = text[:mt.start()] + text[close + 1:]
     text, _ = _sub_logged(text, r"\bpub\s*\(\s*(crate|super|in [\w:]+)\s*\)", "pub", "R2-vis", log)
+    mt = re.match(r"\s*(enum|struct)\b", text)
+    if mt:
+        log.append({"rule": "R2-vis", "before": mt.group(1), "after": "pub " + mt.group(1)})
+        text = text[:mt.start(1)] + "pub " + text[mt.start(1):]
     # R3: log macros as statements
     while True:
         m = L.mask(text)
@@ -238,6 +242,27 @@ def extract_unit(repo, unit, log, canary=False):
     else:
         text = src[s:e]
     ulog = []
+    if unit.get("slice"):
+        # call-site slice: one expression cut out of the located item and wrapped into a fn of its free variables
+        mm = text if unit.get("slice_raw") else L.mask(text)
+        hits = [x for x in re.finditer(unit["slice"], mm)]
+        occ = unit.get("slice_occurrence", 0)
+        if unit.get("slice_count") is not None and len(hits) != unit["slice_count"]:
+            raise Lost(f"slice /{unit['slice']}/ matched {len(hits)} times, expected {unit['slice_count']}")
+        if len(hits) <= occ:
+            raise Lost(f"slice /{unit['slice']}/ occurrence {occ} not found")
+        if hits[occ].re.groups:
+            expr = text[hits[occ].start(1):hits[occ].end(1)]
+        else:
+            st = hits[occ].start()
+            k = mm.index("(", st)
+            en = L.match_close(mm, k) + 1
+            expr = text[st:en]
+        ulog.append({"rule": "R17-callsite-slice", "before": f"<{unit['path'][-1]}>", "after": expr})
+        if unit.get("slice_template"):
+            text = unit["slice_template"].replace("{EXPR}", expr)
+        else:
+            text = unit["slice_header"] + " {\n    " + expr + "\n}"
     try:
         text = auto_rules(text, ulog)
         text = apply_rewrites(text, unit.get("rewrites", []), ulog)
@@ -256,6 +281,9 @@ def extract_unit(repo, unit, log, canary=False):
     except L.LexError as ex:
         raise Lost(f"lexer: {ex}")
     pre, post = unit.get("wrap", ("", ""))
+    if unit.get("derive"):
+        ulog.append({"rule": "R2-derive", "before": "<derive list dropped by R2-attr>", "after": f"#[derive({unit['derive']})]"})
+        pre = pre + f"\n#[derive({unit['derive']})]"
     if unit.get("opaque"):
         pre = pre + "\n#[verifier::external_body]"
     if not canary:
